@@ -131,8 +131,12 @@ class _Worker:
                                   stderr=subprocess.DEVNULL, text=True, bufsize=1)
 
     def call(self, task, timeout):
-        self.p.stdin.write(json.dumps(task) + "\n")
-        self.p.stdin.flush()
+        try:
+            self.p.stdin.write(json.dumps(task) + "\n")
+            self.p.stdin.flush()
+        except (BrokenPipeError, OSError):
+            self.kill()
+            return {"_crashed": True, "_unsent": True}
         box = []
 
         def rd():
@@ -186,6 +190,9 @@ def pmap(module, tasks, timeout=60, nproc=None, env=None):
             if w is None or not w.alive():
                 w = _Worker(module, env)
             results[i] = w.call(t, timeout)
+            if results[i].get("_unsent"):      # the worker had retired itself: ask a fresh one
+                w = _Worker(module, env)
+                results[i] = w.call(t, timeout)
         if w is not None:
             try:
                 w.p.stdin.close()
